@@ -8,6 +8,8 @@ import (
 	"sort"
 	"time"
 
+	"github.com/bytecodealliance/wasmtime-go/v20"
+
 	sdkmath "cosmossdk.io/math"
 
 	sdk "github.com/cosmos/cosmos-sdk/types"
@@ -20,16 +22,86 @@ import (
 	"verifharness/internal/fx"
 )
 
+// two oracle scripts whose outcome is known from their text (one raw request on data source 1 in `prepare`):
+// scriptEmpty's `execute` sets a zero-length answer (SUCCESS with an empty result), scriptNone's never sets one (FAILURE)
+const watHead = `
+(module
+	(type $t0 (func))
+	(type $t1 (func (param i64 i64 i64 i64)))
+	(type $t2 (func (param i64 i64)))
+	(type $t3 (func (result i64)))
+	(type $t4 (func (param i64 i64) (result i64)))
+	(import "env" "ask_external_data" (func $ask_external_data (type $t1)))
+	(import "env" "set_return_data" (func $set_return_data (type $t2)))
+	(import "env" "get_ask_count" (func $get_ask_count (type $t3)))
+	(import "env" "get_external_data_status" (func $get_external_data_status (type $t4)))
+	(func $prepare (export "prepare") (type $t0)
+	  i64.const 1
+	  i64.const 1
+	  i32.const 1024
+	  i64.extend_i32_u
+	  i64.const 4
+	  call $ask_external_data)
+	(func $execute (export "execute") (type $t0)`
+const watTail = `)
+	(table $T0 1 1 funcref)
+	(memory $memory (export "memory") 17)
+	(data (i32.const 1024) "test"))
+`
+const watSetEmpty = `
+	  i32.const 1024
+	  i64.extend_i32_u
+	  i64.const 0
+	  call $set_return_data`
+const watSetFour = `
+	  i32.const 1024
+	  i64.extend_i32_u
+	  i64.const 4
+	  call $set_return_data`
+
+// asks for the report status of validator index ask_count (one past the last): the host answers with an error, the run fails
+const watBadIndex = `
+	  i64.const 1
+	  call $get_ask_count
+	  call $get_external_data_status
+	  drop` + watSetFour
+
+// known outcome (resolve status, result hex) per added script id
+type known struct {
+	status int
+	result string
+}
+
+func (c *caseT) addScripts() {
+	c.known = map[oracletypes.OracleScriptID]known{}
+	for _, x := range []struct {
+		body string
+		k    known
+	}{{watSetEmpty, known{int(oracletypes.RESOLVE_STATUS_SUCCESS), ""}}, {"", known{int(oracletypes.RESOLVE_STATUS_FAILURE), ""}},
+		{watSetFour, known{int(oracletypes.RESOLVE_STATUS_SUCCESS), hex.EncodeToString([]byte("test"))}},
+		{watBadIndex, known{int(oracletypes.RESOLVE_STATUS_FAILURE), ""}}} {
+		wasm, err := wasmtime.Wat2Wasm(watHead + x.body + watTail)
+		fx.Must(err)
+		fn, err := c.app.OracleKeeper.AddOracleScriptFile(wasm)
+		fx.Must(err)
+		id := c.app.OracleKeeper.AddOracleScript(c.ctx, oracletypes.NewOracleScript(bandtesting.Owner.Address, "known", "known outcome", fn, "schema", "url"))
+		c.known[id] = x.k
+		c.knownIDs = append(c.knownIDs, int(id))
+	}
+}
+
 type caseT struct {
-	app    *fx.App
-	ctx    sdk.Context
-	tr     *fx.Trace
-	r      *fx.Rng
-	ms     oracletypes.MsgServer
-	now    int64 // ns
-	height int64
-	exp    int64
-	pen    int64
+	known    map[oracletypes.OracleScriptID]known
+	knownIDs []int
+	app      *fx.App
+	ctx      sdk.Context
+	tr       *fx.Trace
+	r        *fx.Rng
+	ms       oracletypes.MsgServer
+	now      int64 // ns
+	height   int64
+	exp      int64
+	pen      int64
 }
 
 func valIdx(s string) int {
@@ -90,6 +162,9 @@ func (c *caseT) request() {
 	r := c.r
 	k := c.app.OracleKeeper
 	script := oracletypes.OracleScriptID(r.PickInt(1, 1, 1, 4, 4, 6, 3, 9))
+	if len(c.knownIDs) > 0 && r.Chance(1, 4) {
+		script = oracletypes.OracleScriptID(c.knownIDs[r.Intn(len(c.knownIDs))])
+	}
 	ask := uint64(r.Range(1, 3))
 	min := uint64(r.Range(1, int(ask)))
 	calldata := []byte("beeb")
@@ -124,6 +199,10 @@ func (c *caseT) request() {
 		eids := []uint64{}
 		for _, rr := range rq.RawRequests {
 			eids = append(eids, uint64(rr.ExternalID))
+		}
+		if kn, ok := c.known[script]; ok && execGas == bandtesting.TestDefaultExecuteGas {
+			// the outcome of running this script is known from its text: what the result must say once it is resolved
+			m["expect"] = fx.M{"status": kn.status, "result": kn.result}
 		}
 		m["req"] = fx.M{"vals": vals, "minCount": rq.MinCount, "eids": eids, "height": rq.RequestHeight, "time": rq.RequestTime,
 			"clientId": rq.ClientID, "calldata": hex.EncodeToString(rq.Calldata)}
@@ -265,6 +344,7 @@ func runCase(app *fx.App, tr *fx.Trace, r *fx.Rng) {
 	p.InactivePenaltyDuration = uint64(c.pen)
 	fx.Must(app.OracleKeeper.SetParams(c.ctx, p))
 	app.Fund(c.ctx, bandtesting.FeePayer.Address, "uband", sdkmath.NewInt(1_000_000_000_000))
+	c.addScripts()
 	tr.Reset(fx.M{"n": len(bandtesting.Validators)})
 	for i := range bandtesting.Validators {
 		if r.Chance(5, 6) {
